@@ -208,6 +208,14 @@ func (a *Activation) callStatic0(fn *ssa.Function, args []Val, bindings []Val, s
 		if con != nil && con.Trusted && con.hasClause("recorded") {
 			return a.recordedStatic(con, target, args, sig, st, pos)
 		}
+		// A contract that no longer evaluates against its function (a parameter or local it names is gone): applying it here
+		// would only make this caller undecided as well. The callee is verified (and reported undecided) on its own; its
+		// callers are checked against its body instead, so that what they promise is still decided.
+		if con != nil && !con.Trusted && con.Case == "" && len(target.FreeVars) == 0 && t.eng.inModule(target) && len(target.Blocks) > 0 &&
+			a.depth < maxInlineDepth && !a.isRecursive(target) && !t.eng.contractEvaluable(con, target) {
+			t.assumed["the contract of "+shortName(name)+" no longer evaluates against its code (undecided on its own); its callers are verified against its body"] = true
+			return a.inline(target, args, bindings, st, tsubst)
+		}
 		if con != nil && !(con.Inline && t.eng.inModule(target) && a.depth < maxInlineDepth) && !a.inlineForced(name) {
 			return a.applyContract(con, target, args, bindings, st, pos, sig)
 		}
@@ -2011,4 +2019,48 @@ func mutatesUnsyncReceiver(name string) bool {
 		}
 	}
 	return false
+}
+
+// contractEvaluable probes, in a throw-away task, whether every clause of con still evaluates against fn as it is now
+// (the same set-up as a call site: fresh arguments, preconditions assumed, postconditions applied).
+func (e *Eng) contractEvaluable(con *FuncContract, fn *ssa.Function) (ok bool) {
+	if e.evaluable == nil {
+		e.evaluable = map[*FuncContract]bool{}
+	}
+	if v, done := e.evaluable[con]; done {
+		return v
+	}
+	e.evaluable[con] = true // a contract that reaches itself through the probe is judged by the outer probe
+	defer func() {
+		if r := recover(); r != nil {
+			ok = true // the probe itself broke: change nothing
+		}
+		e.evaluable[con] = ok
+		if !ok && os.Getenv("FSV_DEBUG") != "" {
+			fmt.Fprintln(os.Stderr, "contract not evaluable:", con.Full)
+		}
+	}()
+	t := newTask(e, "probe "+con.Full)
+	t.curFn = con.Full
+	st0 := t.newEpochState(tTrue)
+	t.regArray("$now", "Int")
+	t.regArray("$tick", "Int")
+	t.callsArr(st0)
+	var args []Val
+	for _, p := range fn.Params {
+		args = append(args, t.freshValue(tTrue, "in:"+p.Name(), p.Type()))
+	}
+	a := &Activation{t: t, fn: fn, env: map[ssa.Value]Val{}, entry: st0, params: map[string]Val{}, con: con, lets: map[string]Val{}, root: true, arith: map[string]int{}}
+	for i, p := range fn.Params {
+		a.params[p.Name()] = args[i]
+		a.env[p] = args[i]
+		a.wfRef(st0, args[i])
+	}
+	a.applyContract(con, fn, args, nil, st0, token.NoPos, fn.Signature)
+	for _, m := range t.errs {
+		if strings.Contains(m, "unknown identifier") || strings.Contains(m, "value without type") || strings.Contains(m, "no field") {
+			return false
+		}
+	}
+	return true
 }
